@@ -177,7 +177,7 @@ def run(ctx, prop, relevant):
     bins = go_build_tests(ctx, [PKG])
     env = {"VERIF_SCEN": scen, "VERIF_RANDOM": "40" if q else "640", "VERIF_IPAM_ENV": ENV[prop]}
     traces = run_harness(ctx, bins[PKG], 16, env)
-    rej = tc.validate_many(ctx, "Ipam_trace", trace_cfg(prop), [strip(t) for t in traces], max_reruns=6, chunk=120)
+    rej = tc.validate_many(ctx, "Ipam_trace", trace_cfg(prop), [strip(t) for t in traces], max_reruns=16 if q else 160, chunk=40 if q else 50)
     assumed = set(x for x in os.environ.get("VERIF_IPAM_KNOWN", "").split(",") if x)
     for k, line in rej:
         t = traces[k]
